@@ -27,6 +27,7 @@ fn main() {
         "uri" => uri::uri(rest),
         "plain" => plain::plain(rest),
         "errors" => errors::errors(rest),
+        "errobj" => errors::errobj(rest),
         "orders" => orders::orders(rest),
         "serde" => serdewrap::serdewrap(rest),
         "any" => anyval::anyval(rest),
